@@ -38,7 +38,8 @@ def evaluate(d, tests, tier, extra, no_check=False):
     t0 = time.time()
     env = dict(os.environ, OMP_NUM_THREADS='1', PYTHONDONTWRITEBYTECODE='1')
     try:
-        sh(['git', '-C', REPO, 'worktree', 'add', '-q', '--detach', wt, 'HEAD'])
+        # a change that a later fix: commit made harmless is evaluated on the commit it was written for
+        sh(['git', '-C', REPO, 'worktree', 'add', '-q', '--detach', wt, meta.get('evaluate_at_commit', 'HEAD')])
         for so in glob.glob(os.path.join(REPO, 'tenpy/linalg/_npc_helper*.so')):
             shutil.copy(so, os.path.join(wt, 'tenpy/linalg/'))
         demo_cmd = [PY, os.path.join(d, demo)] if not demo.startswith('test_') else \
